@@ -4,8 +4,8 @@
    as pinned is refuted at the end. *)
 From Coq Require Import Permutation.
 (* source tie by translation: the lemmas of these files are obligations of this property *)
-From Soy Require Import Proofs.SourceTieMsg.
-From Soy Require Import Model.Bytes Model.Outcome Generated.Tables Model.MsgId Spec.Msg Proofs.MsgIdProofs.
+From Soy Require Import Proofs.SourceTieMsg Proofs.MsgIdSourceTie.
+From Soy Require Import Model.Bytes Model.Outcome Generated.Tables Model.MsgId Spec.Msg Proofs.MsgIdProofs Proofs.MsgIdInj.
 (* scopes *) Open Scope N_scope.
 
 (* ---- the id fits in 63 bits, for every string and meaning ---- *)
@@ -117,6 +117,89 @@ Lemma id_determines_content_refuted :
   exists m m', placeholder_string (fun l => l) m <> placeholder_string (fun l => l) m' /\
                msg_id (fun l => l) m = msg_id (fun l => l) m'.
 Proof. exists ex_text_name, ex_ph_name. split; [vm_compute; discriminate | vm_compute; reflexivity]. Qed.
+
+(* ---- what the id itself determines.  The strongest true reading of "the id changes
+        when text, placeholder structure or meaning changes": calcID re-arranges the two
+        32-bit words hash32(str, 0) and hash32(str, 102072) of the fingerprinted string
+        bijectively (up to the two designated pairs of the 0/1 adjustment) and then drops
+        exactly one bit; so two contents share an id only if hash32 collides. ---- *)
+
+(* the fingerprint is the (adjusted) pair of hashes, nothing lost *)
+Theorem C10_fingerprint_is_hash_pair : forall s s', fingerprint s = fingerprint s' <-> fp_pair s = fp_pair s'.
+Proof. exact fingerprint_eq_iff_pair. Qed.
+Print Assumptions C10_fingerprint_is_hash_pair.
+
+Theorem C10_adjust_inj : forall p q, adjust p = adjust q -> p = q \/ degenerate p = true \/ degenerate q = true.
+Proof. exact adjust_inj. Qed.
+Print Assumptions C10_adjust_inj.
+
+(* calcID as arithmetic: without a meaning the fingerprint minus its top bit, with a meaning
+   the fingerprint rotated left by one plus the meaning's fingerprint, minus the top bit *)
+Theorem C10_id_no_meaning : forall s, calc_id s [] = fingerprint s mod two63.
+Proof. exact calc_id_no_meaning. Qed.
+Print Assumptions C10_id_no_meaning.
+Theorem C10_id_meaning : forall s m, m <> [] -> calc_id s m = (rot1 (fingerprint s) + fingerprint m) mod two63.
+Proof. exact calc_id_meaning. Qed.
+Print Assumptions C10_id_meaning.
+
+(* exactly which contents share an id *)
+Theorem C10_same_id_no_meaning_iff : forall s s',
+  calc_id s [] = calc_id s' [] <-> fingerprint s mod two63 = fingerprint s' mod two63.
+Proof. exact same_id_no_meaning_iff. Qed.
+Print Assumptions C10_same_id_no_meaning_iff.
+Theorem C10_same_id_same_meaning_iff : forall s s' m, m <> [] ->
+  (calc_id s m = calc_id s' m <->
+   fingerprint s mod two62 = fingerprint s' mod two62 /\ fingerprint s / two63 = fingerprint s' / two63).
+Proof. exact same_id_same_meaning_iff. Qed.
+Print Assumptions C10_same_id_same_meaning_iff.
+(* ... and which meanings *)
+Theorem C10_same_id_two_meanings_iff : forall s m m', m <> [] -> m' <> [] ->
+  (calc_id s m = calc_id s m' <-> fingerprint m mod two63 = fingerprint m' mod two63).
+Proof. exact same_id_two_meanings_iff. Qed.
+Print Assumptions C10_same_id_two_meanings_iff.
+
+(* headline: equal ids under one meaning force the two hashes of the two fingerprinted strings to
+   agree on 62 of their 64 bits (agree62: low words equal, high words equal modulo 2^30) *)
+Theorem C10_same_id_only_by_collision : forall s s' m,
+  calc_id s m = calc_id s' m -> agree62 (fp_pair s) (fp_pair s').
+Proof. exact same_id_only_by_collision. Qed.
+Print Assumptions C10_same_id_only_by_collision.
+Theorem C10_id_changes_unless_collision : forall s s' m,
+  ~ agree62 (fp_pair s) (fp_pair s') -> calc_id s m <> calc_id s' m.
+Proof. exact id_changes_unless_collision. Qed.
+Print Assumptions C10_id_changes_unless_collision.
+Theorem C10_msg_same_id_only_by_collision : forall order m m' named named',
+  msg_named order (m_body m) = Ok named -> msg_named order (m_body m') = Ok named' ->
+  m_meaning m = m_meaning m' -> msg_id order m = msg_id order m' ->
+  agree62 (fp_pair (write_fp_list false named)) (fp_pair (write_fp_list false named')).
+Proof. exact msg_same_id_only_by_collision. Qed.
+Print Assumptions C10_msg_same_id_only_by_collision.
+
+(* non-vacuity: the hypothesis of C10_id_changes_unless_collision holds of concrete contents, and the
+   one collision exhibited above (id_determines_content_refuted) is a collision of the fingerprinted
+   STRINGS ("Hello NAME" both times), not of hash32 *)
+Example ex_no_collision : ~ agree62 (fp_pair (b "Archive")) (fp_pair (b "Help")).
+Proof. intros [H _]. vm_compute in H. discriminate. Qed.
+Example ex_pair_archive : fp_pair (b "Archive") = (fingerprint (b "Archive") / two32, fingerprint (b "Archive") mod two32).
+Proof. vm_compute. reflexivity. Qed.
+Example ex_same_fp_string :
+  (named <- msg_named (fun l => l) (m_body ex_text_name) ;; Ok (write_fp_list false named)) =
+  (named <- msg_named (fun l => l) (m_body ex_ph_name) ;; Ok (write_fp_list false named)).
+Proof. vm_compute. reflexivity. Qed.
+(* the bit that is dropped is the only thing lost: fingerprints differing in it alone give one id *)
+Example ex_dropped_bit : forall fp, fp < two63 -> fp mod two63 = (fp + two63) mod two63.
+Proof. intros fp H. unfold two63 in *. rewrite N.add_mod, N.mod_same, N.add_0_r, N.mod_mod by discriminate. reflexivity. Qed.
+
+(* ---- source tie by translation, lifted to the model's composite functions
+        (Proofs/MsgIdSourceTie.v; notes/gotrans-msgid-needs.md lists what is NOT tied this way) ---- *)
+Theorem C10_calc_id_matches_source : forall fpstr meaning,
+  Z.of_N (calc_id fpstr meaning) = src_soymsg_calcID_tail hash32_z meaning (src_soymsg_fingerprint hash32_z fpstr).
+Proof. exact calc_id_matches_source_full. Qed.
+Print Assumptions C10_calc_id_matches_source.
+Theorem C10_tag_loop_matches_source : forall s p,
+  alnum_prefix s = Some p <-> exists c r, s = p ++ c :: r /\ forallb src_alnum p = true /\ src_alnum c = false.
+Proof. exact alnum_prefix_matches_source. Qed.
+Print Assumptions C10_tag_loop_matches_source.
 
 (* ---- the model reproduces the ids of the official compiler that the existing
         tests contain (soymsg/soymsg_test.go, soymsg/pomsg/testdata) ---- *)
